@@ -284,6 +284,55 @@ def check_defaults(wd, sieve, stats):
                    'expected': 'fails (stl macros unknown)', 'observed': 'printed Hi', 'summary': '--no_stl had no effect'})
 
 
+def check_default_device(wd, sieve, stats):
+    """the API run entries WITHOUT an io_device (the terminal device): every history of <= 3 runs over three programs - one that stops
+    in the middle of an output byte, one that reads half an input byte, hello - each run prints what a fresh fj process prints."""
+    import io
+    import flipjump
+    from flipjump.fjm.fjm_consts import FJMVersion
+    from fjv.asm import quiet
+    import flipjump.interpreter.io_devices  # noqa
+    mod = sys.modules['flipjump.interpreter.io_devices.StandardIO']
+    progs = {
+        'half-output-byte': (';code\nIO:\n;0\ncode:\nIO+1;\nIO+0;\nIO+1;\nend:\n;end\n', True, ''),
+        'half-input-byte': ('stl.startup\nbit.input_bit x\nbit.input_bit x\nbit.input_bit x\nstl.output "k"\nstl.loop\nx: bit.bit 0\n', False, 'Z'),
+        'hello': (PROGRAMS['hello'][0], False, ''),
+    }
+    files, ref = {}, {}
+    for name, (text, no_stl, stdin_text) in progs.items():
+        src = wd / f'dd-{name}.fj'
+        src.write_text(text)
+        files[name] = wd / f'dd-{name}.fjm'
+        with quiet():
+            flipjump.assemble([src], files[name], use_stl=not no_stl, fjm_version=FJMVersion(1), print_time=False)
+        rc, so, se = cli(['--run', str(files[name]), '-s'], stdin=stdin_text.encode())
+        stats['cli_runs'] += 1
+        ref[name] = so.decode('latin1')
+    names = list(progs)
+    for L in (1, 2, 3):
+        for hist in itertools.product(names, repeat=L):
+            got = []
+            for name in hist:
+                old = (mod.stdin, mod.stdout)
+                mod.stdin, mod.stdout = io.StringIO(progs[name][2]), io.StringIO()
+                try:
+                    with quiet():
+                        flipjump.run(files[name], print_time=False, print_termination=False)
+                    got.append(mod.stdout.getvalue())
+                except Exception as e:  # noqa
+                    got.append(f'{type(e).__name__}: {str(e)[:60]}')
+                finally:
+                    mod.stdin, mod.stdout = old
+            stats['configs'] += 1
+            stats['default_device_histories'] = stats.get('default_device_histories', 0) + 1
+            exp = [ref[n] for n in hist]
+            # complete bytes only are echoed: the half byte of 'half-output-byte' never shows
+            if got != exp:
+                sieve.add({'kind': 'an API run on the default device prints something else than a fresh fj process', 'class': 'default device history',
+                           'case': {'history': list(hist), 'programs': {k: v[0] for k, v in progs.items()}}, 'expected': exp, 'observed': got,
+                           'summary': f'flipjump.run without io_device, history {list(hist)}: printed {got} instead of {exp}'})
+
+
 def api_user_history(part, wd):
     """what a library user may do before assembling in the same process: take the public list of stl paths and build an
     own file list out of it (the in-process API routes run after this; the fj subprocess routes are the untouched reference)"""
@@ -308,6 +357,7 @@ def work(task):
     wd = scratch()
     if kind == 'defaults':
         check_defaults(wd, sieve, stats)
+        check_default_device(wd, sieve, stats)
         return stats, sieve.result(), None
     sample = None
     api_user_history(part, wd)
